@@ -106,3 +106,6 @@ impl TopicAliasRecv {
         self.max_alias
     }
 }
+
+#[cfg(feature = "verif-hooks")]
+mod verif;
